@@ -24,6 +24,30 @@ fn enc_hint(h: (usize, Option<usize>)) -> Val {
     vtup(vec![vint(h.0 as u64), vopt(h.1, |x| vint(x as u64))])
 }
 
+/// years within which the adaptor ops that run an iterator to its end are accepted (<= 3653 days)
+fn near_end(d: &Val, fwd: bool) -> Option<()> {
+    let y = d.tup()?.get(0)?.int()?;
+    if fwd { if y >= 262142 - 9 { Some(()) } else { None } } else if y <= -262143 + 9 { Some(()) } else { None }
+}
+fn off(v: &Val) -> Option<FixedOffset> { FixedOffset::east_opt(v.i32()?) }
+/// the provided adaptors `count` / `last` (through `rev()` for the backward direction)
+fn count_of<I: Iterator<Item = NaiveDate> + DoubleEndedIterator>(it: I, fwd: bool) -> Val {
+    vint(if fwd { it.count() } else { it.rev().count() } as u64)
+}
+fn last_of<I: Iterator<Item = NaiveDate> + DoubleEndedIterator>(it: I, fwd: bool) -> Val {
+    vopt(if fwd { it.last() } else { it.rev().last() }, enc_date)
+}
+/// `ExactSizeIterator::len` after `k` forward steps
+fn len_of<I: ExactSizeIterator<Item = NaiveDate>>(mut it: I, k: usize) -> Val {
+    for _ in 0..k { it.next(); }
+    vint(it.len() as u64)
+}
+/// the first `cap` items of `step_by(s)` (of `rev().step_by(s)` for the backward direction)
+fn step_of<I: Iterator<Item = NaiveDate> + DoubleEndedIterator>(it: I, fwd: bool, s: usize, cap: usize) -> Val {
+    let v: Vec<NaiveDate> = if fwd { it.step_by(s).take(cap).collect() } else { it.rev().step_by(s).take(cap).collect() };
+    vtup(v.into_iter().map(enc_date).collect())
+}
+
 /// after `k` calls: (next item, number of items still coming if <= cap)
 fn observe<I: Iterator<Item = NaiveDate> + DoubleEndedIterator + Clone>(mut it: I, k: usize, fwd: bool, cap: usize) -> Val {
     for _ in 0..k {
@@ -143,6 +167,65 @@ pub fn dispatch(op: &str, a: &[Val]) -> Option<Val> {
         "it.whint" => (|| {
             let d = dec_date(a.get(0)?)?; let k = small(a.get(1)?)?; let f = dir(a.get(2)?)?;
             Some(hint(d.iter_weeks(), k, f))
+        })(),
+        // compound-assignment forms, Duration on the assign forms, reference subtraction, FixedOffset operands
+        "ar.opdasg" => (|| {
+            let mut d = dec_date(a.get(0)?)?; let sg = sign(a.get(1)?)?; let x = dec_td(a.get(2)?)?;
+            if sg { d += x; } else { d -= x; }
+            Some(enc_date(d))
+        })(),
+        "ar.opnasg" => (|| {
+            let mut n = dec_ndt(a.get(0)?)?; let sg = sign(a.get(1)?)?; let x = dec_td(a.get(2)?)?;
+            if sg { n += x; } else { n -= x; }
+            Some(enc_ndt(n))
+        })(),
+        "ar.stdasg" => (|| {
+            let mut n = dec_ndt(a.get(0)?)?; let sg = sign(a.get(1)?)?; let d = std_dur(a.get(2)?, a.get(3)?)?;
+            if sg { n += d; } else { n -= d; }
+            Some(enc_ndt(n))
+        })(),
+        "ar.zstdasg" => (|| {
+            let mut z: DateTime<FixedOffset> = dec_dt(a.get(0)?)?; let sg = sign(a.get(1)?)?; let d = std_dur(a.get(2)?, a.get(3)?)?;
+            if sg { z += d; } else { z -= d; }
+            Some(enc_dt(&z))
+        })(),
+        "ar.opzdiffref" => (|| { let y: DateTime<FixedOffset> = dec_dt(a.get(1)?)?; Some(enc_td(dec_dt(a.get(0)?)? - &y)) })(),
+        "ar.noff" => (|| {
+            let n: NaiveDateTime = dec_ndt(a.get(0)?)?; let sg = sign(a.get(1)?)?; let o = off(a.get(2)?)?;
+            Some(vopt(if sg { n.checked_add_offset(o) } else { n.checked_sub_offset(o) }, enc_ndt))
+        })(),
+        "ar.opnoff" => (|| {
+            let n = dec_ndt(a.get(0)?)?; let sg = sign(a.get(1)?)?; let o = off(a.get(2)?)?;
+            Some(enc_ndt(if sg { n + o } else { n - o }))
+        })(),
+        "ar.opzoff" => (|| {
+            let z = dec_dt(a.get(0)?)?; let sg = sign(a.get(1)?)?; let o = off(a.get(2)?)?;
+            Some(enc_dt(&(if sg { z + o } else { z - o })))
+        })(),
+        // provided adaptors of the two iterators
+        "it.dcount" => (|| { let f = dir(a.get(1)?)?; near_end(a.get(0)?, f)?; Some(count_of(dec_date(a.get(0)?)?.iter_days(), f)) })(),
+        "it.wcount" => (|| { let f = dir(a.get(1)?)?; near_end(a.get(0)?, f)?; Some(count_of(dec_date(a.get(0)?)?.iter_weeks(), f)) })(),
+        "it.dlast" => (|| { let f = dir(a.get(1)?)?; near_end(a.get(0)?, f)?; Some(last_of(dec_date(a.get(0)?)?.iter_days(), f)) })(),
+        "it.wlast" => (|| { let f = dir(a.get(1)?)?; near_end(a.get(0)?, f)?; Some(last_of(dec_date(a.get(0)?)?.iter_weeks(), f)) })(),
+        "it.dlen" => (|| Some(len_of(dec_date(a.get(0)?)?.iter_days(), small(a.get(1)?)?)))(),
+        "it.wlen" => (|| Some(len_of(dec_date(a.get(0)?)?.iter_weeks(), small(a.get(1)?)?)))(),
+        "it.dstep" => (|| {
+            let d = dec_date(a.get(0)?)?; let f = dir(a.get(1)?)?; let s = small(a.get(2)?)?; let cap = small(a.get(3)?)?;
+            if s == 0 || cap > 60 { return None; }
+            Some(step_of(d.iter_days(), f, s, cap))
+        })(),
+        "it.wstep" => (|| {
+            let d = dec_date(a.get(0)?)?; let f = dir(a.get(1)?)?; let s = small(a.get(2)?)?; let cap = small(a.get(3)?)?;
+            if s == 0 || cap > 60 { return None; }
+            Some(step_of(d.iter_weeks(), f, s, cap))
+        })(),
+        "it.drev" => (|| {
+            let d = dec_date(a.get(0)?)?; let k = small(a.get(1)?)?; let f = dir(a.get(2)?)?; let cap = small(a.get(3)?)?;
+            Some(observe(d.iter_days().rev(), k, f, cap))
+        })(),
+        "it.wrev" => (|| {
+            let d = dec_date(a.get(0)?)?; let k = small(a.get(1)?)?; let f = dir(a.get(2)?)?; let cap = small(a.get(3)?)?;
+            Some(observe(d.iter_weeks().rev(), k, f, cap))
         })(),
         _ => return None,
     };
